@@ -948,7 +948,7 @@ pub fn run(run: &Run) {
     let _ = (BytesLit::quoted(b""), IntLit::dec(0), IntForm::Dec, BytesForm::Quoted(0));
     if run.tier == Tier::Thorough {
         // coverage-guided search over the same generators (libFuzzer drives the choice sequences)
-        fuzz_campaign_sub(run, "choices", Some(("hostile-quoted", get("hostile-quoted"))), 4, 400_000, 120, None);
-        fuzz_campaign_sub(run, "choices", Some(("bytes", get("bytes"))), 4, 300_000, 320, None);
+        fuzz_campaign_sub(run, "choices", Some(("hostile-quoted", get("hostile-quoted"))), 4, 120_000, 120, None);
+        fuzz_campaign_sub(run, "choices", Some(("bytes", get("bytes"))), 4, 80_000, 320, None);
     }
 }
